@@ -40,9 +40,17 @@ def plan(tier, seed):
                        "variants_per_string": "2^(|w|+1) subsets + (|w|+1) doubled + pad round trips"})
         for sh in E1.shard_prefixes(ALPH[an], L, 2):
             tasks.append((name, (an, tn, L, sh)))
-    return {"scopes": scopes, "tasks": tasks, "bounds": {"max_L": max(g[2] for g in grid)}}
+    runs = [1, 2, 3, 10, 100, 500, 900, 1000, 1100, 2000, 5000] + ([20000] if thorough else [])
+    scopes.append({"name": "long-nop-runs", "run_lengths": runs,
+                   "desc": "k consecutive [nop] at every position of each base string (incl. index positions, inside nested "
+                           "branches, around dots), and selfies_to_encoding padding to len+k", "bases": BASES})
+    for bi in range(len(BASES)):
+        tasks.append(("long-nop-runs", ("runs", bi, runs)))
+    return {"scopes": scopes, "tasks": tasks, "bounds": {"max_L": max(g[2] for g in grid), "max_nop_run": runs[-1]}}
 
 
+BASES = ["[C][O]", "[C][Branch1][Ring1][C][F][N]", "[C][C][C][Ring1][Ring1][O]", "[C][O].[N][F]",
+         "[C][Branch2][Ring1][C]" + "[C]" * 20 + "[F]", "[S][#Branch3][P][P][P][S][#Branch3][P][P][P][=O]", "[Xx][C]", ""]
 _SF = None
 _CUR = [None]
 
@@ -115,7 +123,52 @@ def check(w, r, table):
     return base
 
 
+def run_runs(arg, r):
+    _, bi, runs = arg
+    base = BASES[bi]
+    w = misc.tokenize(base)
+    tables.set_table(_SF, "default")
+    _CUR[0] = "default"
+    table = _SF.get_semantic_constraints()
+    ref = outcome(base)
+    r.states += 1
+    for k in runs:
+        for pos in range(len(w) + 1):
+            v = "".join(w[:pos]) + "[nop]" * k + "".join(w[pos:])
+            r.evaluations += 1
+            r.transitions += 1
+            got = outcome(v)
+            if got != ref:
+                r.violation("nop-run-changes-outcome" if got[0] == ref[0] else "nop-run-changes-acceptance",
+                            {"selfies": base, "padded": None, "nop_run": k, "position": pos, "table": table},
+                            "decoder(%r)=%r but with %d [nop] inserted at symbol position %d: %r" % (base, ref, k, pos, got))
+            else:
+                r.validated += 1
+        if misc.is_wellformed_single_dots(base) and base:
+            syms = sorted(set(w) | {"[nop]", "."})
+            stoi = {x: i for i, x in enumerate(syms)}
+            itos = {i: x for x, i in stoi.items()}
+            r.evaluations += 1
+            try:
+                lab = _SF.selfies_to_encoding(base, stoi, pad_to_len=len(w) + k, enc_type="label")
+                back = _SF.encoding_to_selfies(lab, itos, enc_type="label")
+                got = outcome(back)
+            except Exception as e:
+                got = ("pad-raises", repr(e)[:80])
+            if got != ref:
+                r.violation("pad-roundtrip-changes-outcome", {"selfies": base, "padded": None, "nop_run": k, "position": "pad", "table": table},
+                            "decoder(%r)=%r but padded to len+%d -> %r" % (base, ref, k, got))
+            else:
+                r.validated += 1
+    if ref[0] == "ok" and ref[1]:
+        r.nontrivial.add(h64(ref[1]))
+    r.sample({"scope": "long-nop-runs", "selfies": base, "runs": runs}, 1)
+    return r
+
+
 def run(task):
+    if task[1][0] == "runs":
+        return run_runs(task[1], Result())
     scope, (an, tn, L, sh) = task
     r = Result()
     if _CUR[0] != tn:
@@ -133,5 +186,14 @@ def run(task):
 def replay(case):
     worker_init()
     _SF.set_semantic_constraints(dict(case["table"]))
+    if case.get("padded") is None and "nop_run" in case:
+        w = misc.tokenize(case["selfies"])
+        if case["position"] == "pad":
+            syms = sorted(set(w) | {"[nop]", "."})
+            stoi = {x: i for i, x in enumerate(syms)}
+            lab = _SF.selfies_to_encoding(case["selfies"], stoi, pad_to_len=len(w) + case["nop_run"], enc_type="label")
+            case["padded"] = _SF.encoding_to_selfies(lab, {i: x for x, i in stoi.items()}, enc_type="label")
+        else:
+            case["padded"] = "".join(w[:case["position"]]) + "[nop]" * case["nop_run"] + "".join(w[case["position"]:])
     a, b = outcome(case["selfies"]), outcome(case["padded"])
     return [] if a == b else [("nop-changes-outcome", "decoder(%r)=%r but decoder(%r)=%r" % (case["selfies"], a, case["padded"], b))]
